@@ -137,7 +137,9 @@ def generate(rng, tier, index):
             "loader_baseline": rng.random() < 0.5,
             # the application's datatypes load a small configuration of
             # their own before they reject a value
-            "nested_reject": rng.random() < 0.15}
+            "nested_reject": rng.random() < 0.15,
+            # environment: warnings are errors in this process
+            "warnings_error": rng.random() < 0.1}
 
 
 def _override_pool(rng, uni):
@@ -273,6 +275,8 @@ def _execute(plan, scratch):
     out = {"evaluations": 0, "digests": [], "fired": {}, "probes": {},
            "violations": [], "waste": 0, "log": []}
     with SimWorld() as w:
+        if plan.get("warnings_error"):
+            w.warnings_as_errors()
         w.begin_op("load-schema")
         so = ops.schema_outcome(
             lambda: ops.load_schema_text(plan["schema_xml"], SCHEMA_URL))
@@ -365,13 +369,37 @@ def _execute(plan, scratch):
                         "undecodable", idx % 3, top, idx,
                         [["zzbad caf\ue000 x", "# caf\ue000",
                           "<zz\ue000>"][idx % 3]]))
+            if mode in ("file+url", "file-nourl", "namedfile+url") \
+                    and not plan.get("nested_reject"):
+                # fault injection: one read call on the stream the caller
+                # handed over fails (an interrupted read): the line that
+                # could not be read is the culprit, whatever follows it
+                later = [i_ for i_ in injs if i_["url"] == top
+                         and i_["op"] == "insert" and i_["idx"] >= 2
+                         and i_["family"] == "config"][:4]
+                for i_ in later:
+                    # ... also when a faulty line follows further down: the
+                    # interrupted read comes first
+                    injs.append(dict(
+                        i_, kind="read-interrupted", culprit=[top, 1],
+                        spelling="then-" + i_["kind"],
+                        faults=[{"seam": "line", "res": 0, "at": 0,
+                                 "kind": "line-eintr"}]))
+                for k_ in range(min(len(base_res[top]), 5)):
+                    injs.append({
+                        "kind": "read-interrupted", "variant": 0, "url": top,
+                        "op": "none", "idx": k_, "lines": [],
+                        "culprit": [top, k_ + 1], "family": "config",
+                        "value": None, "spelling": None,
+                        "faults": [{"seam": "line", "res": 0, "at": k_,
+                                    "kind": "line-eintr"}]})
         xmlh = hashlib.sha256(plan["schema_xml"].encode()).hexdigest()[:8]
         served = list(before)
         for inj in injs:
             before = list(served)
             served.append(inj)
             res = TF.apply(base_res, inj)
-            w.begin_op("inject")
+            w.begin_op("inject", inj.get("faults") or ())
             o = _unscratch(ops.config_outcome(
                 lambda: _load(schema, w, res, top, mode, eol, loader,
                               plan.get("override"), scratch)), scratch)
